@@ -8,6 +8,7 @@ import (
 	jbytes "github.com/jsightapi/jsight-schema-go-library/bytes"
 	jerr "github.com/jsightapi/jsight-schema-go-library/errors"
 	"github.com/jsightapi/jsight-schema-go-library/fs"
+	"github.com/jsightapi/jsight-schema-go-library/kit"
 
 	"verifharness/vh"
 )
@@ -134,9 +135,58 @@ const renderFileName = "file.jst"
 
 func checkRender(rep *vh.Report, c []byte, p int) {
 	got := realRender(renderFileName, c, p)
-	checkRendered(rep, c, p, got, func() string {
+	checkRendered(rep, "C17-render", renderFileName, c, p, got, func() string {
 		return fmt.Sprintf("content=%q position=%d (NewDocumentError(fs.NewFile(%q, content), ErrEmptySchema); SetIndex(position); Error())", c, p, renderFileName)
 	})
+	checkRenderFacade(rep, c, p)
+}
+
+// checkRenderFacade: the error value (file content c under a name or under the empty name, position p) handed
+// through the SDK facade kit.ConvertError for a caller that holds the error's file, or another file under the same
+// / the empty / another name whose text is shorter than p or longer with other line breaks (facade.go): the result
+// must name the error's file, keep the position and render like the reference says for c at p.
+var renderFacadeTurn int
+
+func checkRenderFacade(rep *vh.Report, c []byte, p int) {
+	renderFacadeTurn++
+	name := []string{renderFileName, ""}[renderFacadeTurn%2]
+	callers := callerFiles(runFile{"content", name, c}, nil, p)
+	f := callers[(renderFacadeTurn/2)%len(callers)]
+	var file string
+	var pos int
+	got := func() (out rendered) {
+		defer func() {
+			if r := recover(); r != nil {
+				out.panics = fmt.Sprintf("PANIC %v", r)
+			}
+		}()
+		e := jerr.NewDocumentError(fs.NewFile(name, c), jerr.ErrEmptySchema)
+		e.SetIndex(jbytes.Index(p))
+		if renderFacadeTurn%3 == 0 {
+			_ = e.Line() // a value that has been rendered before
+		}
+		k := kit.ConvertError(fs.NewFile(f.name, f.content), e)
+		file, pos = k.Filename(), int(k.Position())
+		ke, ok := k.(error)
+		de, ok2 := k.(jerr.DocumentError)
+		if !ok || !ok2 {
+			out.panics = fmt.Sprintf("the result %T cannot be rendered", k)
+			return out
+		}
+		out.msg = ke.Error()
+		out.line = de.Line()
+		out.src = de.SourceSubString()
+		return out
+	}()
+	rep.Stat("render_through_facade")
+	inf := func() string {
+		return fmt.Sprintf("content=%q position=%d: e := NewDocumentError(fs.NewFile(%q, content), ErrEmptySchema); e.SetIndex(position); k := %s; k.Error() / Line() / SourceSubString()", c, p, name, strings.Replace(f.call(), ", err)", ", e)", 1))
+	}
+	if got.panics == "" && (file != name || pos != p) {
+		rep.AddDiff(vh.Diff{Component: "C17-facade", Input: inf(), Impl: fmt.Sprintf("Filename() = %q Position() = %d", file, pos), Model: fmt.Sprintf("the error's own file %q and position %d", name, p)})
+		return
+	}
+	checkRendered(rep, "C17-facade", name, c, p, got, inf)
 }
 
 // checkRenderWalk: ONE error value rendered at every position of the list in turn (SetIndex, Error, Line,
@@ -148,18 +198,17 @@ func checkRenderWalk(rep *vh.Report, c []byte, positions []int) {
 		in := func() string {
 			return fmt.Sprintf("content=%q; ONE value e := NewDocumentError(fs.NewFile(%q, content), ErrEmptySchema) rendered (SetIndex(p); Error(); Line(); SourceSubString()) at the positions %v in turn; observed at the last one", c, renderFileName, positions[:k+1])
 		}
-		if !checkRendered(rep, c, p, got, in) {
+		if !checkRendered(rep, "C17-render", renderFileName, c, p, got, in) {
 			return // later renderings inherit whatever went wrong
 		}
 	}
 	rep.Stat("render_walks")
 }
 
-func checkRendered(rep *vh.Report, c []byte, p int, got rendered, inf func() string) (good bool) {
-	const name = renderFileName
+func checkRendered(rep *vh.Report, comp, name string, c []byte, p int, got rendered, inf func() string) (good bool) {
 	st := classify(c)
 	if got.panics != "" {
-		rep.AddDiff(vh.Diff{Component: "C17-render", Input: inf(), Impl: got.panics, Model: "rendering never panics"})
+		rep.AddDiff(vh.Diff{Component: comp, Input: inf(), Impl: got.panics, Model: "rendering never panics"})
 		return false
 	}
 	if st == styleMixed {
@@ -169,7 +218,7 @@ func checkRendered(rep *vh.Report, c []byte, p int, got rendered, inf func() str
 	num, src, caret, ok := refRender(c, p, st)
 	head := fmt.Sprintf("\n\tin line %d on file %s\n\t> ", num, name)
 	if int(got.line) != num || !strings.Contains(got.msg, head) {
-		rep.AddDiff(vh.Diff{Component: "C17-render", Input: inf(), Impl: fmt.Sprintf("Line()=%d message=%q", got.line, got.msg), Model: fmt.Sprintf("line %d", num)})
+		rep.AddDiff(vh.Diff{Component: comp, Input: inf(), Impl: fmt.Sprintf("Line()=%d message=%q", got.line, got.msg), Model: fmt.Sprintf("line %d", num)})
 		return false
 	}
 	if !ok {
@@ -179,7 +228,7 @@ func checkRendered(rep *vh.Report, c []byte, p int, got rendered, inf func() str
 	rep.Stat("render_full")
 	want := head + src + "\n\t--" + caret
 	if !strings.HasSuffix(got.msg, want) || !strings.HasPrefix(got.msg, "ERROR") || got.src != src {
-		rep.AddDiff(vh.Diff{Component: "C17-render", Input: inf(), Impl: fmt.Sprintf("SourceSubString()=%q message=%q", got.src, got.msg), Model: fmt.Sprintf("message ends with %q", want)})
+		rep.AddDiff(vh.Diff{Component: comp, Input: inf(), Impl: fmt.Sprintf("SourceSubString()=%q message=%q", got.src, got.msg), Model: fmt.Sprintf("message ends with %q", want)})
 		return false
 	}
 	return true
